@@ -661,6 +661,59 @@ def run_wrong_cert(params, known):
                 samples=[], verdicts=verdicts, report_keys=['verdicts'])
 
 
+def run_two_keys(params, known):
+    '''One integrity block over two targets whose results are made with different keys (as two security
+    associations of one source produce): verifies when the receiver holds both; a result that names
+    one key but was made with the other, a result naming a key the receiver lacks, and an altered
+    second target all fail - in both orders of the two results.'''
+    from .. import env as _env
+    _env.load_bp()
+    prop = params.get('prop', PROP)
+    violations = []
+    kinds = set()
+    keys = []
+    KEY2 = bytes(range(200, 232))
+    KID2 = b'second-key'
+    plainb = plain_bundle()
+    other = [b['num'] for b in plainb['blocks'] if b['type'] == 193][0]
+    cases = [('two-keys', [(KEY, KID), (KEY2, KID2)], True, None, True), ('two-keys-swapped', [(KEY2, KID2), (KEY, KID)], True, None, True),
+             ('second-result-names-a-key-it-was-not-made-with', [(KEY, KID), (KEY, KID2)], True, None, False),
+             ('first-result-names-a-key-it-was-not-made-with', [(KEY2, KID), (KEY2, KID2)], True, None, False),
+             ('second-key-unknown-to-the-receiver', [(KEY, KID), (KEY2, KID2)], False, None, False),
+             ('second-target-altered', [(KEY, KID), (KEY2, KID2)], True, other, False),
+             ('first-target-altered', [(KEY2, KID2), (KEY, KID)], True, 1, False)]
+    for (name, per, have_second, alter, ok) in cases:
+        keys.append(name)
+        bundle = A.add_bib(plainb, [1, other], KEY, KID, SRC, scope={0: 1, -1: 1}, num=4, per_target=per)
+        if alter is not None:
+            for blk in bundle['blocks']:
+                if blk['num'] == alter:
+                    blk['data'] = bytes(blk['data'][:-1]) + bytes([blk['data'][-1] ^ 1])
+        data = B.encode(bundle)
+        world = verifier('right')
+        if have_second:
+            k2 = sym_key(KEY2, ['MacCreateOp', 'MacVerifyOp'], 'HMAC256')
+            k2.kid = KID2
+            world.cose().sym_key_store[KID2] = k2
+        world.receive(data)
+        world.quiesce()
+        delivered = bool(world.probe.seen)
+        found = None
+        if world.escaped:
+            found = ('exception-escaped-idle-callback', '%s: %s' % (world.escaped[-1][0], world.escaped[-1][2]))
+        elif ok and not delivered:
+            found = ('unmodified-bundle-rejected', 'case %s: errors %r' % (name, world.api_errors[:1]))
+        elif not ok and delivered:
+            found = ('altered-bundle-verified', 'case %s: delivered' % name)
+        if found and found[0] not in kinds:
+            kinds.add(found[0])
+            v = Violation(prop, 'integrity', found[0], dict(case=name), found[1]).as_dict()
+            v['case'] = dict(source='oracle-two-keys', protected=data.hex(), altered=data.hex(), alteration=name, keymode='right', with_ca=False)
+            violations.append(v)
+    return dict(name=params['name'], evaluations=len(keys), nontrivial_keys=['two-keys:%s' % k for k in keys], violations=violations, known=[],
+                samples=[], verdicts={}, report_keys=['verdicts'])
+
+
 def run_cert_validity(params, known):
     '''The signer's certificate is judged at the time the bundle was created: two certificates bound to
     the security source, one valid until the end of April 2024 and one from the middle of May 2024 on, each
@@ -772,6 +825,7 @@ def run_key_shapes(params, known):
 def scenarios(tier):
     out = []
     pems = make_pems()
+    out.append(dict(name='mac0-two-keys', kind='enum', runner='run_two_keys', params=dict(name='mac0-two-keys'), weight=1))
     out.append(dict(name='sign1-certificate-validity', kind='enum', runner='run_cert_validity', params=dict(name='sign1-certificate-validity', pems=pems), weight=2))
     out.append(dict(name='sign1-key-shapes', kind='enum', runner='run_key_shapes', params=dict(name='sign1-key-shapes', pems=pems), weight=2))
     out.append(dict(name='sign1-wrong-certificate', kind='enum', runner='run_wrong_cert',
@@ -807,6 +861,7 @@ def scenarios(tier):
 ASSUMPTIONS = [
     'trusted base: pycose and cryptography primitives; certificate path validation by the harness stand-in for certvalidator',
     'the covered tuple (external AAD, target data, protected bucket, tag/signature, result type, context id) is computed by vmc/oracle/cose_aad.py from the independently decoded bundle',
+    'one integrity block with two results made under two different keys, seven cases (valid in both orders, mislabelled results, unknown key, either target altered)',
     'certificate validity: two certificates valid before / after the middle of 2024, bundles created in January and August 2024, the four combinations in all 24 orders at one receiver',
     'right key, asymmetric case: signer keys on P-256 / P-384 / P-521 whose public point has a leading zero octet in x or y, or (P-521) the top bit of a coordinate set or clear; all keys of the check are derived from fixed scalars',
     'wrong key, asymmetric case: valid signatures under four certificates that do not bind the key to the security source (other NODE-ID, no SAN, DNS SAN only, issuer not trusted)',
